@@ -485,3 +485,46 @@ def implies_depth_at_least(pr, k):
         if m and not pol and int(m.group(2)) + (0 if m.group(1) == '<' else 1) >= k:
             return True
     return False
+
+
+def sequence_builder_content(repo, rep, rule, counts=None):
+    """The sequence builder on n plain elements - 2, 3, and one more than every size constant it compares against: in every layout the
+    content is the opening bracket, the elements in order separated by single commas, the closing bracket.  Returns the count."""
+    m = repo.module('prettyprinter')
+    sod = m.funcs.get('sequence_of_docs')
+    if sod is None:
+        raise AnalysisError('sequence_of_docs vanished')
+    itb = interp(repo, 'builder')
+    if counts is None:
+        counts, mined = scaled_counts(repo, sod)
+        rep.note('sequence builder: size constants %s; element counts %s' % ({k: v[:1] for k, v in mined.items()} or 'none', [2, 3] + counts))
+    n = 0
+    for nel in [2, 3] + [c for c in counts if c > 3]:
+        docs = [sub('e%d' % i) for i in range(nel)]
+        try:
+            prs = itb.explore(sod, [CtxV(), punct('['), ListV(docs), punct(']')], {'dangle': Const(False), 'force_break': Const(False)})
+        except Undecided as e:
+            n += 1
+            rep.undecided(rule, 'sequence_of_docs[n=%d]:content' % nel, sod.where, str(e))
+            continue
+        for pr in prs:
+            if pr.raised is not None or not isinstance(pr.value, DocV):
+                n += 1
+                rep.fail(rule, 'sequence_of_docs[n=%d]:content' % nel, sod.where, 'the sequence builder raises %s / returns no document for %d elements'
+                         % (pr.raised.what if pr.raised else None, nel))
+                continue
+            for seq in D.all_layouts(pr.value.t):
+                sig = content_sig(seq)
+                want = [('Text', '[')]
+                for i in range(nel):
+                    want.append(('Sub', 'e%d' % i))
+                    if i < nel - 1:
+                        want.append(('Text', ','))
+                want.append(('Text', ']'))
+                n += 1
+                ok = list(sig) == want
+                k = next((j for j, (x, y) in enumerate(zip(sig, want)) if x != y), min(len(sig), len(want))) if not ok else 0
+                rep.check(ok, rule, 'sequence_of_docs[n=%d]:content' % nel, sod.where, 'elements separated by single commas',
+                          'the content of a %d-element sequence is not "[ e0 , e1 , ... ]": at position %d it has %s where %s is due'
+                          % (nel, k, list(sig[k:k + 3]), want[k:k + 3]), nontrivial=True)
+    return n
